@@ -94,15 +94,17 @@ func jDestroyWorld() {
 
 // JobSpec is the harness-level description of a copy job.
 type JobSpec struct {
-	Sources     []string                 `json:"sources"` // abstract dataset names; >1 = UnionDatasetSource
-	Union       bool                     `json:"union,omitempty"`
-	LatestOnly  bool                     `json:"latest_only,omitempty"`
-	Sink        string                   `json:"sink"`
-	JobType     string                   `json:"job_type"` // incremental | fullsync
-	BatchSize   int                      `json:"batch_size"`
-	JS          string                   `json:"js,omitempty"` // javascript transform code (plain text)
-	Parallelism int                      `json:"parallelism,omitempty"`
-	OnError     []map[string]interface{} `json:"on_error,omitempty"`
+	Sources     []string `json:"sources"` // abstract dataset names; >1 = UnionDatasetSource
+	Union       bool     `json:"union,omitempty"`
+	LatestOnly  bool     `json:"latest_only,omitempty"`
+	Sink        string   `json:"sink"`
+	JobType     string   `json:"job_type"` // incremental | fullsync
+	BatchSize   int      `json:"batch_size"`
+	JS          string   `json:"js,omitempty"` // javascript transform code (plain text)
+	Parallelism int      `json:"parallelism,omitempty"`
+	// ParallelismGiven: write the option into the definition also when it is 0 or negative
+	ParallelismGiven bool                     `json:"parallelism_given,omitempty"`
+	OnError          []map[string]interface{} `json:"on_error,omitempty"`
 	// Mixed: the job has a second trigger of the other job type (an incremental job with a periodic fullsync,
 	// both sharing the job's continuation token)
 	Mixed bool `json:"mixed,omitempty"`
@@ -135,7 +137,7 @@ func (j *JWorld) jobConfig(h *server.VHist, id string, sp JobSpec) (*JobConfigur
 	}
 	if sp.JS != "" {
 		tr := map[string]interface{}{"Type": "JavascriptTransform", "Code": base64.StdEncoding.EncodeToString([]byte(sp.JS))}
-		if sp.Parallelism > 0 {
+		if sp.Parallelism > 0 || sp.ParallelismGiven {
 			tr["Parallelism"] = sp.Parallelism
 		}
 		cfg["transform"] = tr
